@@ -610,6 +610,41 @@ func namedCases() []namedCase {
 			out = append(out, namedCase{chain(d, via), fmt.Sprintf("*Chain depth %d via %s", d, via)}, namedCase{[]*Chain{chain(d, via), nil, chain(2, via)}, fmt.Sprintf("[]*Chain depth %d via %s", d, via)})
 		}
 	}
+	// wide structs: marked fields at every index up to 130 (nothing about a field depends on its position)
+	for _, n := range []int{63, 64, 65, 70, 130} {
+		var sf []reflect.StructField
+		for i := 0; i < n; i++ {
+			switch i % 5 {
+			case 0:
+				sf = append(sf, reflect.StructField{Name: fmt.Sprintf("P%03d", i), Type: reflect.PtrTo(leafT), Tag: `valid:"exist"`})
+			case 1:
+				sf = append(sf, reflect.StructField{Name: fmt.Sprintf("S%03d", i), Type: reflect.SliceOf(leafT), Tag: `valid:"required"`})
+			case 2:
+				sf = append(sf, reflect.StructField{Name: fmt.Sprintf("N%03d", i), Type: reflect.TypeOf(0)})
+			case 3:
+				sf = append(sf, reflect.StructField{Name: fmt.Sprintf("M%03d", i), Type: reflect.MapOf(reflect.TypeOf(""), reflect.PtrTo(leafT)), Tag: `valid:"exist"`})
+			default:
+				sf = append(sf, reflect.StructField{Name: fmt.Sprintf("U%03d", i), Type: reflect.PtrTo(leafT)}) // unmarked
+			}
+		}
+		wt := reflect.StructOf(sf)
+		w := reflect.New(wt).Elem()
+		for i := 0; i < n; i++ {
+			switch i % 5 {
+			case 0, 4:
+				w.Field(i).Set(ptrTo(reflect.ValueOf(leafBAD)))
+			case 1:
+				if i%2 == 0 {
+					w.Field(i).Set(reflect.ValueOf([]Leaf{leafOK, leafBAD}))
+				}
+			case 3:
+				m := reflect.MakeMap(wt.Field(i).Type)
+				m.SetMapIndex(reflect.ValueOf("k"), ptrTo(reflect.ValueOf(leafBAD)))
+				w.Field(i).Set(m)
+			}
+		}
+		out = append(out, namedCase{w.Addr().Interface(), fmt.Sprintf("struct with %d fields, marked sub-objects at every fifth index", n)})
+	}
 	add("unmarked only", Parent{Name: "n", M: okMid, UM: &badMid, AM: [2]*Mid{&okMid, &okMid}, MM: map[string]*Mid{"a": &okMid}, Embedded: Embedded{"e"}})
 	return out
 }
@@ -620,7 +655,7 @@ func main() {
 		Technique: "bounded-exhaustive enumeration of acyclic object graphs (container grammar, depth<=3) vs walk reference model (expected clause/path list)",
 		Rule: "types: 18 containers of Leaf {T,*T,**T,[]T,[]*T,[]**T,[2]T,[2]*T,map[string]T,map[string]*T,map[int]*T,map[bool]T,map[int32]**T,map[float64]*T,map[struct]T,map[interface{}]*T,map[[2]int]T,map[uint8]T} x marks {required,exist,none} as one or two fields (+unexported incl. names starting with '_' / a CJK or non-ASCII lower-case letter, time.Time, unmarked extras), " +
 			"nested once more through every container of Mid (depth 3; thorough: unmarked outer fields too, and a depth-4 space over 8 container kinds per level); values: nil / zero / valid / violating nodes, collections of length 0..2 with every mix; top-level input T,*T,**T,[]T,[]*T,[2]T,map[string]*T,map[int]T; " +
-			"plus a named Parent/Mid/Leaf family and self-referential chains to depth 200 through pointers, slices and maps; Leaf = {required, to=1~3, either group of two}; expected clauses from the walk model: field clauses compared in order (as a multiset when a map with >=2 entries is iterated), group clauses (reported after the walk, path-qualified per sub-object) after them as a multiset; non-trivial = a violation at depth>=2",
+			"plus a named Parent/Mid/Leaf family structs with up to 130 fields, and self-referential chains to depth 200 through pointers, slices and maps; Leaf = {required, to=1~3, either group of two}; expected clauses from the walk model: field clauses compared in order (as a multiset when a map with >=2 entries is iterated), group clauses (reported after the walk, path-qualified per sub-object) after them as a multiset; non-trivial = a violation at depth>=2",
 		Assumptions: []string{"acyclic graphs only (statement)", "walk model internal/walk"},
 		Run:         run,
 	})
